@@ -33,6 +33,10 @@ CLAIMED = {
    technique="table agreement between the display validator/computer vocabulary and makeBox's display → box class switch (AST + constants) against the CSS Display table + must-precede order of the anonymous-box passes on SSA",
    text="Thin: decides that every display value that can be produced has the box class the CSS Display table prescribes and that the anonymous-box passes run in the required order. What each rewriting pass does (block-in-inline splitting, table wrapping, blockification) is not decided.",
    ref="4 C09"),
+ "C10": dict(
+   technique="provenance rules on SSA (field stored / accessor read / property id triple of every resolveOnePercentage call; trace of the reference length back to the components of the containing-block parameter, with the page-box test as path condition) + dominance order and write sets of the min/max wrappers + per-keyword dependence sets of the box-sizing adjustment (path-condition selection of phi edges)",
+   text="Thin: decides that every percentage-resolved used value is stored in the field of the property it was read from and refers to the right dimension of the containing block (vertical margins/paddings to the width except for page boxes), that max is clamped before min with the wrapped function re-run and only the own axis written, and that the box-sizing adjustment depends on the paddings/borders CSS names for each keyword. The width equation 10.3.3, auto margins, margin collapsing and auto heights are numerical relations between runtime values and are not decided.",
+   ref="4 C10"),
  "C11": dict(
    technique="keyword-set extraction of every white-space classification test (AST boolean chains over values derived from GetWhiteSpace) compared with the CSS Text classes and a per-function table confirmed by reading + validator/consumer vocabulary agreement",
    text="Thin: decides that each white-space test uses the right CSS Text class (collapse spaces / collapse newlines / wrap / no-wrap) at each site and that the white-space and text-align vocabularies are handled by their consumers. Widths, break opportunities and greedy filling are not decided.",
@@ -53,6 +57,10 @@ CLAIMED = {
    technique="polynomial value numbering of the matrix routines over SSA (exact rationals, uninterpreted trig) compared with specification matrices + AST/SSA checks of vocabulary, arity, argument order, composition order and origin conjugation",
    text="Decides that each routine of package matrix, as a polynomial in its inputs, equals the specification matrix (and in-place operations equal right multiplication by the constructor), that SVG transform.applyTo right-multiplies by the specified matrix per kind with degrees converted to radians, and that the CSS/SVG plumbing (names, arities, argument positions, left-to-right composition, transform-origin conjugation, angle-unit table) is as specified. Float rounding is outside the abstraction; the matrix finally handed to the backend is not traced further than getMatrix/applyTo.",
    ref="4 C17"),
+ "C18": dict(
+   technique="table agreement on the syntax tree of pathParser.addSeg (argument count per command against SVG 1.1 §8.3, relative/absolute pairing, emitted operations, reflection families, closepath state update on SSA) + recursion-guard idioms on <use> resolution and href inheritance",
+   text="Thin: decides that each path command letter is handled with the SVG argument count, that lower-case letters switch to relative coordinates before sharing the upper-case code, that each command emits the operations SVG assigns to it (H/V keeping the other coordinate, Z returning to the sub-path start, smooth commands reflecting only after their own family), and that <use> (by id and URL) and href inheritance are cycle-guarded. All geometry (arcs, reflections, quadratic elevation, viewBox/preserveAspectRatio arithmetic, basic shapes) is not decided; the fixed-position reads of the SVG attribute parsers are decided under C07.",
+   ref="4 C18"),
  "C19": dict(
    technique="division/modulo hazard analysis (path-condition reachability under divisor==0 and dividend<0 scenarios, coinductive loop-carried sign facts, caller-side preconditions) + vocabulary and dispatch-table agreement on the AST + visited-set (recursion guard) checks on SSA",
    text="Decides that no integer division or modulo of the counter renderer can see a zero divisor or index with a negative remainder, that the counter-system vocabulary agrees across validator, symbols(), Validate and renderer, that each system dispatches to its algorithm with the Counter Styles negative-sign set and automatic ranges, and that the extends/fallback walks use a visited set. The arithmetic of each system and counter scoping in the box tree are not decided.",
@@ -68,6 +76,7 @@ CLAIMED = {
 }
 
 NOT_APPLICABLE = {
+ "C06": "the property is an equality between token/rule sequences and those of the CSS Syntax algorithms, and an exact-consumption claim about error recovery: both quantify over the values of tokens produced for every input string. Its only structural clause, that no cursor read of the tokenizer leaves the input, is already decided under C07.R1 over the same functions (css/parser is reached from the parse roots); claiming C06 through that clause alone would present a crash-freedom rule as a tokenization verdict",
  "C02": "conservation of text across line/page fragmentation is a multiset equality over runtime layout values and resume stacks; no clause is visible in the shape of the code (DESIGN.md section 5)",
  "C13": "grid consistency is a set of equalities/inequalities between computed float positions after a width-distribution algorithm; the only structural clauses (two-keyword vocabularies) are too small to stand for the property (DESIGN.md section 5)",
 }
